@@ -105,12 +105,17 @@ def check_docs(ctx, xmls, max_sub):
     terms += ["run18doc %s %s %s %s" % (cgrid(g), common.clist(cnode(n) for n in p), term,
                                         common.clist(cnode(n) for n in e)) for _, _, p, _, e, _, g, term in docitems]
     vals = ctx.coq_eval("c18", preamble(), terms, chunk=20)
+    first_grid = {}
     for (kind, xml, idx, t, real, g, _term), v in zip(items, vals):
         case = {"xml": xml, "subtree": idx, "tree": t}
         if v is None:
             ctx.mismatch("pretty model evaluation", "coqc failed on the case file")
             continue
         ds, reduced, strs = decode_run(v)
+        if idx == 0 and not reduced and g == first_grid.setdefault(xml, g):
+            # the property's precondition: what the parser's whitespace reduction leaves is in normal form
+            ctx.fail("the document left by the implementation's whitespace reduction is not reduced (reduce_model changes it)",
+                     dict(case, impl=real[0]), classify)
         ctx.count(len(g), "%s/%s/%s" % (kind, "root" if idx == 0 else "subtree", "data-style" if ds else "other"))
         for gi, (ind, align) in enumerate(g):
             model, simple = strs[2 * gi], strs[2 * gi + 1]
@@ -291,6 +296,16 @@ FIXED = [
     "<r> <a>x</a> <!--c--> <?p q?> </r>", '<r k="v" id="1"><a long-name="x&amp;y" n=""/></r>',
     '<r xml:space="preserve"> <a> x </a>\n</r>', '<r> <a xml:space="preserve"> x\n</a> <b k="1" n="2" id="3"> <c/> </b> </r>',
     "<r> text <a/> more text <b> x </b> </r>", "<!--p-->\n<?q z?>\n<r> <a/> </r>\n<!--e-->",
+    # white space beyond ASCII in leaf texts (inside, next to a space, at the ends)
+    "<list>\n  <item>first\u00a0entry</item>\n  <item>second \u2003 entry</item>\n  <!--c-->\n"
+    "  <item n='3'>third\u2009\u00a0entry</item>\n  <item>\u3000fourth\u00a0</item>\n</list>",
+    "<r>\u00a0<a>x\u2003y</a>\u2009<b/>\u3000</r>",
+    # siblings with identical content
+    "<r> <!--c--> <a/> <!--c--> </r>", "<r> <?t x?> <a>same</a> <b>same</b> <?t x?> </r>",
+    # more than ten namespaces that get a generated prefix (ns1 ... ns10, ns11), attributes to align among them
+    to_xml(("tag", "", "r", [("", "k", "v"), ("ua", "id", "1")],
+            [x for i in range(12) for x in (("text", "\n  "), ("tag", "u%d" % i, "e%d" % i, [("ub", "n", str(i))] if i % 5 == 0 else [],
+                                                            [("text", "t%d" % i)] if i % 3 == 0 else []))] + [("text", "\n")])),
 ]
 
 
@@ -310,7 +325,7 @@ def run(ctx, args):
     hist = [(k, x) for k, x in xmls if k in ("fixed", "data", "ns-data")]
     check_histories(ctx, ctx.rng.sample(hist, min(len(hist), 40 if quick else 300)), steps=4)
     return ctx.finish(
-        rule="documents: fixed small cases + chains of 9-13 nested elements (root and sub-trees at every depth) + random conventionally laid out (data-style) documents of depth <= 3 with "
+        rule="documents: fixed small cases (incl. non-ASCII white space in leaf texts, siblings with identical content, 12 namespaces with generated prefixes) + leaf texts whose words are now and then separated / framed by U+00A0, U+2003, U+2009, U+3000 + chains of 9-13 nested elements (root and sub-trees at every depth) + random conventionally laid out (data-style) documents of depth <= 3 with "
              "elements, comments, PIs, 0-3 attributes, xml:space directives, optional prologue/epilogue, + random "
              "mixed-content documents + the same with elements in 3 and attributes in 2 namespaces (models run on the qualified view: prefixed names, declarations on the root, as read off the real plain serialization); parsed with reduce_whitespace; serialized from the root, from sampled sub-trees "
              "and as a document with indentation in {'', ' ', '  ', '\\t', ' \\t', '\\n', ' \\n', '\\n '} x align_attributes in {F, T}, width 0 (quick tier: 4 of the 16 option sets per tree, drawn at random). "
